@@ -4,7 +4,7 @@ in pyerrors/correlators.py.  Every `variant` branch of the loop shape
     newcontent = []
     for t in range(<lo>, self.T - <hi>):
         if <guards>:  newcontent.append(None)
-        [elif <sign test>: newcontent.append(None)]
+        [elif <sign test, `< 0` or `<= 0`>: newcontent.append(None)]
         else:         newcontent.append(<expr over self.content[t+k]>)
     if all(x is None ...): raise ValueError(...)
     return <outer>(Corr(newcontent, padding=[p0, p1])) [/ 2]
@@ -184,7 +184,7 @@ def _loop_branch(body):
     if len(orelse) == 1 and isinstance(orelse[0], ast.If):      # elif <a>.value / <b>.value < 0: append(None)
         e2 = orelse[0]
         t2 = e2.test
-        if not (isinstance(t2, ast.Compare) and len(t2.ops) == 1 and isinstance(t2.ops[0], ast.Lt) and isinstance(t2.comparators[0], ast.Constant)
+        if not (isinstance(t2, ast.Compare) and len(t2.ops) == 1 and isinstance(t2.ops[0], (ast.Lt, ast.LtE)) and isinstance(t2.comparators[0], ast.Constant)
                 and t2.comparators[0].value == 0 and isinstance(t2.left, ast.BinOp) and isinstance(t2.left.op, ast.Div)):
             raise TranslateError("elif is not a ratio-sign test")
         a, b = _value_ref(t2.left.left), _value_ref(t2.left.right)
@@ -192,7 +192,7 @@ def _loop_branch(body):
             raise TranslateError("ratio-sign test on something else than values of self.content[t+k]")
         if not _is_none_const(_append_arg(e2.body)):
             raise TranslateError("sign-test branch does not append None")
-        sign = (a, b)
+        sign = (a, b, isinstance(t2.ops[0], ast.LtE))
         orelse = e2.orelse
     expr = _sexpr(_append_arg(orelse))
     # all-None check: if all([x is None for x in newcontent]): raise ValueError(...)
@@ -306,7 +306,7 @@ def translate_stencils(src):
                     raise TranslateError("m_eff %s: outer function not recognised" % v)
                 outer = ret.func.attr + ("_half" if half else "")
                 p0, p1 = _padding(ret.args[0])
-                sign = "None" if b["sign"] is None else "(Some (%s, %s))" % (_z(b["sign"][0]), _z(b["sign"][1]))
+                sign = "None" if b["sign"] is None else "(Some (%s, %s, %s))" % (_z(b["sign"][0]), _z(b["sign"][1]), "true" if b["sign"][2] else "false")
                 out.append("Definition ms_m_eff_%s : mstencil := (mkMStencil %s %s [%s] [%s] %s %s (%s, %s))." % (
                     v, _z(b["lo"]), _z(b["hi"]), "; ".join(_z(k) for k in b["none"]), "; ".join(_z(k) for k in b["zero"]), sign, b["expr"], _z(p0), _z(p1)))
                 out.append("Definition m_eff_%s_outer : nat := %d.  (* 0 = log, 1 = log/2, 2 = arccosh *)" % (v, {"log": 0, "log_half": 1, "arccosh": 2}[outer]))
